@@ -45,6 +45,7 @@ package processor
 //@   ghost gdecoded []decoder.Record = nil
 //@   ghost gcur []sink.Record = nil
 //@   ghost gwritten []sink.Record = nil
+//@   at ListCompleted#1 after set gstage = 0
 //@   at LoadOffset#1 after set gstage = ite(isNilIface(ret1), 1, 0 - 1)
 //@   at LoadOffset#1 after set gcommitted = ret0.Offset
 //@   at Decode#1 before assert [C33.decodes_the_listed_segment] arg1 == seg.SegmentKey && arg2 == seg.IndexKey && arg3 == seg.Topic && arg4 == seg.Partition
